@@ -1,20 +1,118 @@
 #!/usr/bin/env python3
-"""Record the SHA-1 of every anchored source file per property (model_basis.json).
+"""Record the SHA-1 of every source file a property's behaviour can depend on (model_basis.json).
+
+Per property: the anchored files of properties.jsonl plus the transitive closure of their in-crate imports
+(`use crate::a::b::…`, `crate::a::b::item` paths, `super::…`, `self::…`) resolved to files under src/.
 Run after every commit to /repo that the models have been (re)validated against. The check compares these hashes with
 the working tree: a difference never alarms, it only escalates the case budget (DESIGN §3.6)."""
-import json, hashlib, os, sys
+import json, hashlib, os, re, sys
 ROOT = os.path.dirname(os.path.dirname(os.path.abspath(__file__)))
 REPO = sys.argv[1] if len(sys.argv) > 1 else "/repo"
 if not os.path.isdir(os.path.join(REPO, "src")):
     sys.exit("usage: update_basis.py [repo]   (%s has no src/ directory)" % REPO)
+
+
+def mod_file(parts):
+    """longest prefix of a crate path that names a module file; returns repo-relative path or None"""
+    for n in range(len(parts), 0, -1):
+        base = os.path.join("src", *parts[:n])
+        for cand in (base + ".rs", os.path.join(base, "mod.rs")):
+            if os.path.exists(os.path.join(REPO, cand)):
+                return cand
+    return None
+
+
+def mod_path_of(f):
+    """module path (list) of a file under src/"""
+    rel = f[len("src/"):]
+    parts = rel[:-3].split("/")
+    if parts[-1] in ("mod", "lib"):
+        parts = parts[:-1]
+    return parts
+
+
+def expand(tree):
+    """`a::{b, c::d}` -> [a::b, a::c::d] (one level of nesting is all the crate uses; handled recursively)"""
+    m = re.match(r"^(.*?)\{(.*)\}(.*)$", tree, flags=re.S)
+    if not m:
+        return [tree.strip()]
+    pre, inner, _ = m.groups()
+    out, depth, cur = [], 0, ""
+    for ch in inner:
+        if ch == "{":
+            depth += 1
+        if ch == "}":
+            depth -= 1
+        if ch == "," and depth == 0:
+            out.append(cur)
+            cur = ""
+        else:
+            cur += ch
+    out.append(cur)
+    res = []
+    for o in out:
+        if o.strip():
+            res += expand(pre + o.strip())
+    return res
+
+
+def deps(f):
+    text = open(os.path.join(REPO, f), errors="replace").read()
+    text = re.sub(r"//[^\n]*", "", text)
+    here = mod_path_of(f)
+    found = set()
+    paths = []
+    for m in re.finditer(r"\buse\s+([^;]+);", text):
+        paths += expand(m.group(1))
+    paths += re.findall(r"\b((?:crate|super|self)(?:::\w+)+)", text)
+    for p in paths:
+        p = re.sub(r"\s+as\s+\w+$", "", p.strip())
+        parts = [x for x in p.split("::") if x and x != "*"]
+        if not parts:
+            continue
+        if parts[0] == "crate":
+            tgt = parts[1:]
+        elif parts[0] == "super":
+            base = here[:-1] if not f.endswith("mod.rs") else here[:-1]
+            k = 0
+            while k < len(parts) and parts[k] == "super":
+                k += 1
+            base = here[:len(here) - k] if len(here) >= k else []
+            tgt = base + parts[k:]
+        elif parts[0] == "self":
+            tgt = here + parts[1:]
+        else:
+            continue
+        mf = mod_file(tgt)
+        if mf and mf != f and mf != "src/lib.rs":
+            found.add(mf)
+    # `mod x;` declarations are children, not dependencies: not followed (a parent module is only reached when something
+    # is imported through it, and then only its own imports count)
+    return found
+
+
+def closure(files):
+    seen, todo = set(), [f for f in files if f.startswith("src/") and os.path.exists(os.path.join(REPO, f))]
+    while todo:
+        f = todo.pop()
+        if f in seen:
+            continue
+        seen.add(f)
+        todo += [d for d in deps(f) if d not in seen]
+    return seen
+
+
 basis = {}
 for l in open(os.path.join(ROOT, "properties.jsonl")):
     p = json.loads(l)
+    files = set(p["anchors"]["files"])
+    files |= closure(files)
     d = {}
-    for f in p["anchors"]["files"]:
+    for f in sorted(files):
         path = os.path.join(REPO, f)
         if os.path.exists(path):
             d[f] = hashlib.sha1(open(path, "rb").read()).hexdigest()
     basis[p["id"]] = d
 json.dump(basis, open(os.path.join(ROOT, "model_basis.json"), "w"), indent=1, sort_keys=True)
-print("model_basis.json written for", len(basis), "properties")
+print("model_basis.json written for", len(basis), "properties;",
+      ", ".join("%s:%d" % (k, len(v)) for k, v in sorted(basis.items())))
